@@ -31,6 +31,12 @@ def jobs_for(tier):
         for codec in C.BINARY_CODECS:
             jobs.append(dict(id='%s/%s' % (t['id'], codec), template=t['id'], codec=codec,
                              numeric_enums=False, tier=tier))
+    # BER: strict prefixes of OTHER valid serialisations (long-form / padded / indefinite lengths,
+    # constructed strings) built by the independent X.690 model
+    for i in ['octets', 'seq-basic', 'seq-opt', 'ia5', 'choice-ext', 'seqof', 'bits', 'tag-explicit'] + \
+            (['set-basic', 'combo-str-seq', 'seq-ext', 'utf8'] if tier == 'thorough' else []):
+        jobs.append(dict(id='variant/%s/ber' % i, template=i, codec='ber', numeric_enums=False, tier=tier,
+                         variant=True))
     return jobs
 
 
@@ -38,17 +44,28 @@ def make_harness(job):
     cj = Compiled(job, bounds_for(job['tier'], corpus.BY_ID[job['template']],
                                   **({'int_abs': 1 << 17, 'n_len': 1} if job['tier'] == 'quick' else {'n_len': 2})))
 
+    variant = job.get('variant')
+    if variant:
+        from models import x690
+        model = x690.DerModel(cj.parsed)
+
     def harness(ctx):
         cj.cands.attach(ctx)
         with shimmed(C.CODEC_MODS):
             v = cj.value(ctx)
             state = {}
-            ctx.describe = lambda m: {'value': jsonable(concretize(v, m)), 'cut': state.get('k')}
+            ctx.describe = lambda m: {'value': jsonable(concretize(v, m)), 'cut': state.get('k'),
+                                      'message': state['enc'].concrete(m).hex() if 'enc' in state else None}
             if not cj.accepted(v):
                 ctx.note('outside-domain')
                 return
             try:
-                enc = cj.ct.encode(v)
+                if variant:
+                    rw = x690.Rewriter(lambda name, n: ctx.choose(name, n), max_rewrites=1)
+                    enc = SymBytes(rw.emit(model.tree(v, cj.name, cj.module)))
+                    state['enc'] = enc
+                else:
+                    enc = cj.ct.encode(v)
             except Exception:
                 ctx.note('encode-raises(C01 territory)')
                 return
@@ -59,10 +76,12 @@ def make_harness(job):
             m = ctx.eng.get_model()
             cv = concretize(v, m)
             want = enc.concrete(m) if isinstance(enc, SymBytes) else bytes(enc)
-            with unshimmed():
-                got = bytes(cj.ct.encode(cv))
-            if got != want:
-                raise HarnessError('xval mismatch %r: symbolic %s concrete %s' % (cv, want.hex(), got.hex()))
+            got = want
+            if not variant:
+                with unshimmed():
+                    got = bytes(cj.ct.encode(cv))
+                if got != want:
+                    raise HarnessError('xval mismatch %r: symbolic %s concrete %s' % (cv, want.hex(), got.hex()))
             ctx.res.xval += 1
             k = ctx.choose('cut', n)            # prefix length 0..n-1
             state['k'] = k
@@ -87,6 +106,8 @@ def replay(v):
     inp = v['witness'].get('inputs')
     value, k = unjson(inp['value']), inp['cut']
     enc = bytes(spec.encode(tpl['type'], value))
+    if inp.get('message'):
+        enc = bytes.fromhex(inp['message'])
     try:
         dec = spec.decode(tpl['type'], enc[:k])
     except asn1tools.DecodeError as e:
